@@ -12,11 +12,14 @@ import (
 	"os"
 	"path/filepath"
 	"strconv"
+	"strings"
 	"syscall"
 	"time"
 
+	"verifharness/filesim"
 	"verifharness/jsonx"
 	"verifharness/plan"
+	"verifharness/simrun"
 	"verifharness/stagefn"
 )
 
@@ -34,6 +37,8 @@ type record struct {
 	Threads  float64         `json:"threads"`
 	MemGB    float64         `json:"mem_gb"`
 	Attempt  int             `json:"attempt"`
+	// file runs: what is wrong with the files named in the arguments
+	InputProblems []string `json:"input_problems,omitempty"`
 }
 
 func die(format string, a ...any) {
@@ -79,6 +84,17 @@ func main() {
 	argsV, argsRaw := readJSON(filepath.Join(md, "_args"))
 	args, _ := argsV.(*jsonx.Obj)
 	rec := record{Identity: id, Stage: stage, Phase: phase, MdPath: md, Pid: os.Getpid(), Start: start.UnixNano(), Args: argsRaw}
+	var led *filesim.Ledger
+	if pl.Opts.Files {
+		led = filesim.New(filepath.Join(caseDir, "ps"))
+		// every path under the pipestance named in the arguments must be
+		// there, with what its producer wrote (derivable from its name)
+		rec.InputProblems = checkInputs(led, argsV)
+		if n, ok := led.Norm(args).(*jsonx.Obj); ok {
+			args = n
+			rec.Args = json.RawMessage(jsonx.Marshal(n))
+		}
+	}
 	// what mrp reserved for this job
 	if b, err := os.ReadFile(filepath.Join(md, "_jobinfo")); err == nil {
 		var ji struct {
@@ -133,6 +149,10 @@ func main() {
 		outsV, _ := readJSON(filepath.Join(md, "_chunk_outs"))
 		defs, _ := defsV.([]any)
 		couts, _ := outsV.([]any)
+		if led != nil {
+			rec.InputProblems = append(rec.InputProblems, checkInputs(led, outsV)...)
+			couts, _ = led.Norm(couts).([]any)
+		}
 		outs = stagefn.Join(pl.Prog, st, args, defs, couts, &pl.Opts)
 	default:
 		if st.Split {
@@ -144,6 +164,30 @@ func main() {
 	outName := "_outs"
 	if phase == "split" {
 		outName = "_stage_defs"
+	}
+	if led != nil {
+		ph := phase
+		if phase == "main" && st.Split {
+			ph = "chunk"
+		}
+		callFork := id[:strings.LastIndexByte(id, ':')]
+		call, fork := callFork, ""
+		if i := strings.Index(callFork, "//"); i >= 0 {
+			call, fork = callFork[:i], callFork[i+2:]
+		}
+		j := &simrun.Job{Fqname: id, CallPath: call, ForkName: fork, Phase: ph, Chunk: -1, MdPath: md, FilesPath: os.Args[4], Stage: st}
+		m, err := led.Materialise(j, pl.Prog, outs)
+		if err != nil {
+			die("writing files: %v", err)
+		}
+		outs = m
+		for _, e := range led.Order {
+			e.JobName = id
+		}
+		eb, _ := json.Marshal(led.Order)
+		name := filepath.Join(pl.Ledger, fmt.Sprintf("files.%s.%d.%d.json", sanitize(id), rec.Attempt, os.Getpid()))
+		os.WriteFile(name+".tmp", eb, 0o644)
+		os.Rename(name+".tmp", name)
 	}
 	b := jsonx.Marshal(outs)
 	if has {
@@ -182,6 +226,48 @@ func main() {
 		die("writing %s: %v", outName, err)
 	}
 	write()
+}
+
+// checkInputs: every string that is a path inside the pipestance names a
+// file (or directory) that exists; a regular file holds the content its
+// name stands for.  Paths whose name says "returned but never written" are
+// not expected to exist.
+func checkInputs(led *filesim.Ledger, v any) []string {
+	var probs []string
+	var walk func(v any)
+	walk = func(v any) {
+		switch x := v.(type) {
+		case string:
+			if !strings.HasPrefix(x, led.Root+"/") {
+				return
+			}
+			token := filepath.Base(x)
+			fi, err := os.Stat(x)
+			if err != nil {
+				if filesim.LeafKind("file", token) == "never" || filesim.LeafKind("path", token) == "never" {
+					return
+				}
+				probs = append(probs, x+": "+err.Error())
+				return
+			}
+			if fi.IsDir() {
+				return
+			}
+			if b, err := os.ReadFile(x); err != nil || string(b) != filesim.ContentFor(token) {
+				probs = append(probs, fmt.Sprintf("%s: content %q (%v)", x, b, err))
+			}
+		case []any:
+			for _, e := range x {
+				walk(e)
+			}
+		case *jsonx.Obj:
+			for _, e := range x.Vals {
+				walk(e)
+			}
+		}
+	}
+	walk(v)
+	return probs
 }
 
 func sanitize(s string) string {
